@@ -497,6 +497,123 @@ def reductions(repo):
     return "\n".join(out)
 
 
+# ----------------------------------------------------------------------------------------------- the library's own distributed loops
+CALLER_FILES = ["/quantarhei/qm/liouvillespace/redfieldtensor.py", "/quantarhei/implementations/python/redfieldrates.py"]
+HELPER_NAMES = ("block_distributed_range", "block_distributed_list", "block_distributed_array")
+
+
+def _written_in(loop, name):
+    """is the array `name` written inside the loop: target of a (subscript / augmented) assignment, or handed to a call"""
+    for st in loop.body:
+        for x in ast.walk(st):
+            if isinstance(x, (ast.Assign, ast.AugAssign)):
+                for t in (x.targets if isinstance(x, ast.Assign) else [x.target]):
+                    base = t
+                    while isinstance(base, ast.Subscript):
+                        base = base.value
+                    if isinstance(base, ast.Name) and base.id == name:
+                        return True
+            if isinstance(x, ast.Call) and any(isinstance(a, ast.Name) and a.id == name for a in list(x.args) + [k.value for k in x.keywords]):
+                return True
+    return False
+
+
+def callers(repo):
+    """every function of the anchored caller files that opens a parallel region: its uses of the parallel machinery in source
+    order as a list of events (Model/C20regions.v: pev), to be proved well formed"""
+    import warnings
+    out, what, names = [], [], []
+    for path in CALLER_FILES:
+        with warnings.catch_warnings():
+            warnings.simplefilter("ignore")
+            tree = ast.parse(open(repo + path).read())
+        funs = []
+
+        def collect(node, prefix):
+            for ch in ast.iter_child_nodes(node):
+                if isinstance(ch, ast.ClassDef):
+                    collect(ch, prefix + ch.name + ".")
+                elif isinstance(ch, ast.FunctionDef):
+                    funs.append((prefix + ch.name, ch))
+                    collect(ch, prefix + ch.name + ".")
+        collect(tree, "")
+        for qual, fn in funs:
+            own = [n for n in ast.walk(fn)]
+            nested = set()
+            for n in own:
+                if isinstance(n, (ast.FunctionDef, ast.Lambda)) and n is not fn:
+                    nested.update(id(x) for x in ast.walk(n) if x is not n)
+            events = []
+            loops = []
+
+            def name_of(call):
+                f = call.func
+                return f.id if isinstance(f, ast.Name) else (f.attr if isinstance(f, ast.Attribute) else None)
+            for n in own:
+                if id(n) in nested:
+                    continue
+                if isinstance(n, ast.Call):
+                    nm = name_of(n)
+                    if nm == "start_parallel_region" and not n.args and not n.keywords:
+                        events.append((n.lineno, n.col_offset, "PS"))
+                    elif nm in ("close_parallel_region", "finish_parallel_region") and not n.args and not n.keywords:
+                        events.append((n.lineno, n.col_offset, "PF"))
+                    elif nm == "allreduce":
+                        ok = (len(n.args) >= 1 and isinstance(n.args[0], ast.Name)
+                              and ((len(n.args) == 1 and [(k.arg, _u(k.value)) for k in n.keywords] in ([("operation", "'sum'")], []))
+                                   or (len(n.args) == 2 and _u(n.args[1]) == "'sum'" and not n.keywords)))
+                        events.append((n.lineno, n.col_offset, ("PA", n.args[0].id) if ok else "POther"))
+                    elif nm in ("reduce", "bcast", "asynchronous_range", "collect_block_distributed_data", "parallel_function") \
+                            and not (isinstance(n.func, ast.Attribute) and _u(n.func.value) in ("numpy", "functools")):
+                        events.append((n.lineno, n.col_offset, "POther"))
+                    elif nm in HELPER_NAMES:
+                        events.append((n.lineno, n.col_offset, ("Qcall", id(n))))
+                if isinstance(n, ast.For) and isinstance(n.iter, ast.Call) and name_of(n.iter) in HELPER_NAMES:
+                    loops.append(n)
+                if isinstance(n, ast.Return):
+                    events.append((n.lineno, n.col_offset, "PRet"))
+            if not any(e[2] == "PS" for e in events):
+                continue
+            loop_of = {id(l.iter): l for l in loops}
+            events.sort(key=lambda e: (e[0], e[1]))
+            terms, last_loop = [], None
+            for (_, _, ev) in events:
+                if isinstance(ev, tuple) and ev[0] == "Qcall":
+                    loop = loop_of.get(ev[1])
+                    if loop is None:
+                        terms.append("POther")          # a helper used otherwise than as the iterator of a for loop
+                        continue
+                    call = loop.iter
+                    if name_of(call) == "block_distributed_range":
+                        if len(call.args) != 2 or call.keywords:
+                            raise Untranslatable("%s: %s" % (qual, _u(call)))
+                        lo = Expr("Z", {}).e(call.args[0]) if isinstance(call.args[0], ast.Constant) else None
+                        if lo is None:
+                            raise Untranslatable("%s: the distributed range starts at %s" % (qual, _u(call.args[0])))
+                    else:
+                        lo = "(0)"
+                    terms.append("PQ %s" % lo)
+                    last_loop = loop
+                elif isinstance(ev, tuple) and ev[0] == "PA":
+                    covers = last_loop is not None and _written_in(last_loop, ev[1])
+                    terms.append("PA %s" % ("true" if covers else "false"))
+                else:
+                    terms.append(ev)
+            # returns before the first region / after the last one are outside every region by construction of well_formed;
+            # nested returns inside a distributed loop are not (they appear between PS and PF)
+            g = "gen_protocol_" + qual.replace(".", "_")
+            names.append(g)
+            out.append("(* %s:%s *)\nDefinition %s : list pev := [%s].\n" % (os.path.basename(path), qual, g, "; ".join(terms)))
+            what.append("%s:%s (use of the parallel machinery, in source order)" % (os.path.basename(path), qual))
+    if not names:
+        raise Untranslatable("no routine of the caller files opens a parallel region")
+    out.append("(* each of them: open, one distributed loop, all-reduce of an array the loop touches, close - the shape for which\n"
+               "   c20_region_protocol_reduces_to_serial gives the serial result on every process and the restored configuration *)\n"
+               "Lemma gen_protocols_well_formed : %s.\nProof. repeat split. Qed.\n" % " /\\ ".join("well_formed %s = true" % g for g in names))
+    return "\n".join(out), what
+
+
+
 HEAD = """(* GENERATED on every run by harness/translate_c20.py from quantarhei/core/parallel.py: _calculate_ranges (again, so that
    the helpers below are stated over the code's own range function), _calculate_ranges_list/_array, block_distributed_range/list/array,
    DistributedConfiguration.__init__/start_parallel_region/finish_parallel_region/reduce/allreduce, start/close_parallel_region.
@@ -523,6 +640,8 @@ def static(repo):
              helper_seq(repo, "block_distributed_list", "dlist", ("_calculate_ranges_list", "gen_ranges_list"), "gen_bdl"),
              helper_seq(repo, "block_distributed_array", "array", ("_calculate_ranges_array", "gen_ranges_array"), "gen_bda"),
              HELPERS_TAIL, regions(repo), wrappers(repo), reductions(repo)]
+    ctext, cwhat = callers(repo)
+    parts.append(ctext)
     what = ["parallel.py:_calculate_ranges_list", "parallel.py:_calculate_ranges_array", "parallel.py:block_distributed_range",
             "parallel.py:block_distributed_list", "parallel.py:block_distributed_array",
             "parallel.py:DistributedConfiguration.__init__ (level and region counters)",
@@ -530,7 +649,7 @@ def static(repo):
             "parallel.py:start_parallel_region", "parallel.py:close_parallel_region",
             "parallel.py:DistributedConfiguration.reduce (guards and sharing condition)",
             "parallel.py:DistributedConfiguration.allreduce (guards and sharing condition)"]
-    return "\n".join(parts), what
+    return "\n".join(parts), what + cwhat
 
 
 def static_tie_b(cm, chk, repo):
